@@ -201,7 +201,7 @@ pub fn gen(out: &mut Out, _sub: &str) {
     }
     // ---- wider intervals: bounds around start / end / stride multiples ---------------------------
     for w in [2u64, 4, 8] {
-        for _ in 0..out.size(if w == 2 { 60 } else { 250 }, 2000) {
+        for _ in 0..out.size(if w == 2 { 60 } else { 180 }, 2000) {
             let mut x = rand_raw(&mut rng, w, HINT_PCT);
             if w == 2 && count(&x) > 3000 { x = rand_raw_sized(&mut rng, w, Size::Medium, HINT_PCT); }
             let c = pick_bound(&mut rng, &x, w);
@@ -210,13 +210,13 @@ pub fn gen(out: &mut Out, _sub: &str) {
         }
     }
     // ---- intersections ---------------------------------------------------------------------------
-    for _ in 0..out.size(1500, 15000) {
+    for _ in 0..out.size(1000, 15000) {
         let x = rand_raw(&mut rng, 1, HINT_PCT);
         let y = if rng.chance(2, 3) { isect_partner(&mut rng, &x, 1) } else { rand_raw(&mut rng, 1, HINT_PCT) };
         if rng.chance(1, 2) { isect_iv(out, &x, &y) } else { isect_iv(out, &y, &x) }
     }
     for w in [2u64, 4, 8] {
-        for _ in 0..out.size(if w == 2 { 60 } else { 200 }, 1500) {
+        for _ in 0..out.size(if w == 2 { 60 } else { 150 }, 1500) {
             let mut x = rand_raw(&mut rng, w, HINT_PCT);
             if w == 2 && count(&x) > 3000 { x = rand_raw_sized(&mut rng, w, Size::Medium, HINT_PCT); }
             let mut y = if rng.chance(3, 4) { isect_partner(&mut rng, &x, w) } else { rand_raw(&mut rng, w, HINT_PCT) };
@@ -226,14 +226,14 @@ pub fn gen(out: &mut Out, _sub: &str) {
     }
     // ---- data domains: the absolute part is refined, relative / Top members are preserved ----------
     for w in [1u64, 8] {
-        for _ in 0..out.size(300, 2500) {
+        for _ in 0..out.size(220, 2500) {
             let x = rand_data(&mut rng, w, HINT_PCT);
             let c = match x.get_absolute_value() { Some(a) => pick_bound(&mut rng, &RawIv::of(a), w), None => bvs(pick_val(&mut rng, w), w) };
             let kind = *rng.pick(&KINDS);
             let cls = x.get_absolute_value().map(|a| bound_cls(&RawIv::of(a))).unwrap_or("");
             push(out, json!({"ev": "one", "dom": "dd", "kind": kind, "x": dd(&x), "c": bv(&c), "cls": cls}));
         }
-        for _ in 0..out.size(200, 1500) {
+        for _ in 0..out.size(150, 1500) {
             let x = rand_data(&mut rng, w, HINT_PCT);
             let mut y = rand_data(&mut rng, w, HINT_PCT);
             if rng.chance(1, 2) {
